@@ -227,6 +227,16 @@ func (x *Exec) initGhosts(st *State) {
 	for k, v := range x.ParamVals {
 		vars[k] = v
 	}
+	for _, g := range x.FC.Ghosts {
+		if n := len(g.LHS); n > 1 && g.LHS[n-1] == '0' {
+			if _, clash := x.ParamVals[g.LHS[:n-1]]; clash {
+				x.fail("ghost %s clashes with the entry value of parameter %s", g.LHS, g.LHS[:n-1])
+			}
+		}
+		if _, clash := x.ParamVals[g.LHS]; clash {
+			x.fail("ghost %s clashes with a parameter", g.LHS)
+		}
+	}
 	env := &Env{X: x, St: st, Old: st, Vars: vars, OldVars: x.ParamVals, FC: x.FC, PkgPath: x.Pkg}
 	x.runGhosts(st, env, "entry")
 }
